@@ -4,6 +4,7 @@
 #define FILENAME_C(line) FILENAME_FOR_EXCEPTIONS_C("src/libawkward/array/VirtualArray.cpp", line)
 
 #include <iomanip>
+#include <cstdlib>
 #include <sstream>
 #include <stdexcept>
 
@@ -974,8 +975,9 @@ namespace awkward {
           int64_t length;
           if ((range->step() > 0  &&  regular_stop - regular_start > 0)  ||
               (range->step() < 0  &&  regular_stop - regular_start < 0)) {
-            int64_t numer = abs(regular_start - regular_stop);
-            int64_t denom = abs(range->step());
+            // (not abs(): that is 'int abs(int)' and cuts the values to 32 bits)
+            int64_t numer = std::llabs(regular_start - regular_stop);
+            int64_t denom = std::llabs(range->step());
             int64_t d = numer / denom;
             int64_t m = numer % denom;
             length = d + (m != 0 ? 1 : 0);
